@@ -122,7 +122,7 @@ def ofJson (norm : String → String) : Json → Res Ty
               if optn.all fun o => ns.contains o then
                 if more'.isEmpty then .ok (.object ns ts (ns.map fun n => optn.contains n))
                 else .err "extra"
-              else .panic "optional contains undeclared attribute"
+              else .err "optional contains undeclared attribute"
     else .err "kind"
   | .arr _ => .err "kind"
   | _ => .err "shape"
